@@ -3,3 +3,4 @@ pub mod payload;
 pub mod h1;
 pub mod ws;
 pub mod multipart;
+pub mod router;
